@@ -30,7 +30,10 @@ MCChoices(nd, iss, l) ==
 
 MCInit == Init /\ last = [a |-> "Init", i |-> 0]
 
+\* after a stop the new gateway object first reloads the file (start_persistence) - a restart
+\* that never loads has no memory by design and is not what C06 / C14 talk about
 MCNext ==
+  IF last.a = "StopRestart" THEN StartPersist /\ last' = [a |-> "StartPersist", i |-> 0] ELSE
   \/ \E i \in 1..Len(Lines) :
        \/ /\ Flavour = "async"
           /\ \E ch \in MCChoices(nodes, issued, Lines[i]) : RecvAsync(Lines[i], ch)
@@ -52,7 +55,7 @@ MCNext ==
        /\ last' = [a |-> "Call", i |-> i]
   \/ WithPersist /\ StartPersist /\ last' = [a |-> "StartPersist", i |-> 0]
   \/ WithPersist /\ Tick /\ last' = [a |-> "Tick", i |-> 0]
-  \/ WithPersist /\ StopRestart /\ last' = [a |-> "StopRestart", i |-> 0]
+  \/ WithPersist /\ pers /\ StopRestart /\ last' = [a |-> "StopRestart", i |-> 0]
 
 MCSpec == MCInit /\ [][MCNext]_mcvars
 Bound == TLCGet("level") <= MaxDepth
